@@ -388,6 +388,11 @@ func mutate(r *Rng, s string) string {
 }
 
 func buildRequest(r *Rng, c *config, path, method string, v variant, tokenOverride *string, tokenRef time.Time) builtReq {
+	return buildRequestBy(r, c, path, method, v, tokenOverride, tokenRef, tokenOverride != nil || tokenByNode(v.token))
+}
+
+// buildRequestBy: macByNode says whether the token's signature was made with the node's key.
+func buildRequestBy(r *Rng, c *config, path, method string, v variant, tokenOverride *string, tokenRef time.Time, macByNode bool) builtReq {
 	var body *strings.Reader
 	if method == "POST" || method == "PUT" {
 		body = strings.NewReader("{}")
@@ -558,7 +563,7 @@ func buildRequest(r *Rng, c *config, path, method string, v variant, tokenOverri
 		acrm = v.acrm
 	}
 	coq := strings.Join([]string{poolS.id(Str(method)), poolS.id(Str(req.Host)), poolS.id(Str(origin)), poolS.id(Str(referer)), poolChk.id(chkHost),
-		poolS.id(Str(ct)), poolAuth.id(au), poolTok.id(viewToken(tok, tokenOverride != nil || tokenByNode(v.token)).coq(ref)), poolS.id(Str(acrm))}, "; ")
+		poolS.id(Str(ct)), poolAuth.id(au), poolTok.id(viewToken(tok, macByNode).coq(ref)), poolS.id(Str(acrm))}, "; ")
 	return builtReq{req: req, coq: coq, token: tok}
 }
 
@@ -861,6 +866,110 @@ func run(args []string) error {
 		}
 	}
 	o.Def("cases_csrf_old_token", "list Z", oldTerms)
+
+	// ---- request HISTORIES: token validity is a pure function of token, key and clock,
+	// so every request of a sequence must get the verdict the model gives that request
+	// alone at that time.  Tokens are minted with an explicit, near expiry
+	// (newCSRFTokenWithTime) and used before and after it; valid after invalid and
+	// vice versa; A, B, A.  All muxes of the process share the token code.
+	var histTerms []string
+	{
+		var hc *config
+		hci := 0
+		for ci, c := range cfgs {
+			if !c.disableCSRF && len(c.sets) == len(allSets) && c.user == "" && c.pass == "" {
+				hc, hci = c, ci
+				break
+			}
+		}
+		var hts []target
+		for _, want := range []string{"/api/v1/wallet/update", "/api/v2/address/verify", "/api/v2/data", "/api/v1/blocks"} {
+			for _, tg := range targets {
+				if tg.path == want {
+					hts = append(hts, tg)
+				}
+			}
+		}
+		mint := func(d time.Duration) string {
+			t, err := api.VerifNewCSRFTokenWithTime(time.Now().Add(d))
+			if err != nil {
+				panic(err)
+			}
+			return t
+		}
+		badmacOf := func(t string) string {
+			i := len(t) - 10
+			repl := byte('A')
+			if t[i] == repl {
+				repl = 'B'
+			}
+			return t[:i] + string(repl) + t[i+1:]
+		}
+		step := 0
+		use := func(history, what string, tok string, byNode bool, k int) {
+			if hc == nil || len(hts) == 0 {
+				return
+			}
+			tg := hts[k%len(hts)]
+			method := "POST"
+			if tg.path == "/api/v2/data" {
+				method = "DELETE"
+			}
+			// the model's clock is the time of this request; a token whose expiry is
+			// closer than 150 ms to it is not a case (the comparison inside the node
+			// happens a little later)
+			ref := time.Now()
+			vw := viewToken(tok, byNode)
+			if vw.kind == "parsed" && vw.jsonOK {
+				d := vw.expires.Sub(ref)
+				if d > -150*time.Millisecond && d < 150*time.Millisecond {
+					hist.Add("history:skipped_near_expiry")
+					return
+				}
+			}
+			v := baseline
+			v.token = what
+			br := buildRequestBy(r, hc, tg.path, method, v, &tok, ref, byNode)
+			status, reason := serve(hc, br.req)
+			step++
+			term := record("token_history", hc, hci, tg, method, v, br, status, reason)
+			last := caseJSON["token_history"][len(caseJSON["token_history"])-1]
+			last["history"] = history
+			last["step"] = step
+			last["token_expires_in_ms"] = vw.expires.Sub(ref).Milliseconds()
+			histTerms = append(histTerms, term)
+			hist.Add("history:" + history)
+		}
+		if hc != nil && len(hts) > 0 {
+			life := 1200 * time.Millisecond
+			a, c2 := mint(life), mint(life)
+			long1, long2 := mint(time.Hour), mint(time.Hour)
+			dead := mint(-2 * time.Second)
+			// valid after invalid and vice versa; A, B, A
+			use("invalid then valid", "badmac", badmacOf(long1), false, 0)
+			use("invalid then valid", "valid_1h", long1, true, 0)
+			use("valid then invalid", "badmac", badmacOf(long1), false, 1)
+			use("valid then expired", "expired_2s", dead, true, 1)
+			use("A B A", "valid_1h", long1, true, 2)
+			use("A B A", "valid_1h_B", long2, true, 2)
+			use("A B A", "valid_1h", long1, true, 2)
+			use("expired twice", "expired_2s", dead, true, 3)
+			use("expired twice", "expired_2s", dead, true, 3)
+			// the same genuine tokens used while valid ... (c2 first, then a: a is the last one accepted)
+			use("used valid, then again after its expiry (another token accepted in between)", "short_lived", c2, true, 0)
+			use("used valid, then again after its expiry", "short_lived", a, true, 0)
+			use("used valid, then again after its expiry", "short_lived", a, true, 1)
+			// ... and again after their own expiry
+			time.Sleep(life + 400*time.Millisecond)
+			use("used valid, then again after its expiry", "short_lived_expired", a, true, 0)
+			use("used valid, then again after its expiry", "short_lived_expired", a, true, 1)
+			use("used valid, then again after its expiry", "short_lived_expired", a, true, 2)
+			use("used valid, then again after its expiry (another token accepted in between)", "short_lived_expired", c2, true, 0)
+			use("valid after the expired one", "valid_1h", long2, true, 3)
+			use("expired after a valid one", "short_lived_expired", a, true, 3)
+		}
+	}
+	o.Def("cases_token_history", "list Z", histTerms)
 	// a case is [path; cfg; method; host; origin; referer; chk; ctype; auth; token; acrm; status],
 	// every field but cfg and status an index into one of these pools
 	o.Def("pool_s", "string", poolS.items)
